@@ -131,7 +131,7 @@ func TestC06(t *testing.T) {
 			}
 		}
 		for i := range cl.Nodes {
-			if hasUp[i] != nil && proto == "http" && c.Chance("goAway", 1, 3) {
+			if hasUp[i] != nil && c.Chance("goAway", 1, 3) {
 				goaway[i] = true
 				hasUp[i].MarkGone()
 				_ = hasUp[i].Listener().Close()
@@ -201,6 +201,11 @@ func TestC06(t *testing.T) {
 				hdr := map[string]string{}
 				if fwdHeader {
 					hdr["x-piko-forward"] = "true"
+				} else if v := c.OneOf("clientForwardOther", "-", "-", "-", "false", "0", "", "TRUE "); v != "-" {
+					// a client-supplied marker that does not say "true" changes nothing:
+					// in particular it must not shadow the marker piko sets when it forwards
+					hdr["X-Piko-Forward"] = v
+					c.Class("client-forward-header-not-true")
 				}
 				if conn := c.OneOf("connectionHeader", "", "", "", "x-piko-forward", "close, X-Piko-Forward", "keep-alive, x-piko-endpoint", "keep-alive\nx-piko-forward", "keep-alive\nX-Verif-Hop\nx-piko-endpoint, X-Piko-Forward"); conn != "" {
 					hdr["Connection"] = conn
